@@ -1,6 +1,7 @@
 package props
 
 import (
+	"strings"
 	"bytes"
 	"crypto/ecdsa"
 	"crypto/ed25519"
@@ -676,6 +677,49 @@ func forEachKeyGridCell(sh, nsh int, f func(cell string, wire []byte)) int {
 						f(fmt.Sprintf("okp-long-d kty=1 crv=%d layout=%d x=%v alg=%d ops=%d", ci, li, withX, alg, op), rc.Encode(m, nil))
 					}
 				}
+			}
+		}
+	}
+	// coordinates, d, kid and Base IV given as TEXT strings of the right length (what a careless converter from
+	// JWK leaves behind): a text string is not key material
+	for _, kt := range []int64{2, 1} {
+		crv := int64(1)
+		if kt == 1 {
+			crv = 6
+		}
+		x0, y0, d0 := c15Coords(crv)
+		txt := func(b []byte) rc.Val { return rc.Text(strings.Repeat("k", len(b))) }
+		for shape := 0; shape < 6; shape++ {
+			for _, alg := range []bool{false, true} {
+				cnt++
+				if cnt%nsh != sh {
+					continue
+				}
+				x, y, d := rc.Bytes(x0), rc.Bytes(y0), rc.Bytes(d0)
+				m := rc.Map(rc.E(rc.Int(1), rc.Int(kt)), rc.E(rc.Int(-1), rc.Int(crv)))
+				switch shape {
+				case 0:
+					x = txt(x0)
+				case 1:
+					y = txt(y0)
+				case 2:
+					d = txt(d0)
+				case 3:
+					x, y, d = txt(x0), txt(y0), txt(d0)
+				case 4:
+					m.M = append(m.M, rc.E(rc.Int(2), rc.Text("kid-as-text")))
+				case 5:
+					m.M = append(m.M, rc.E(rc.Int(5), rc.Text("base-iv-as-text")))
+				}
+				m.M = append(m.M, rc.E(rc.Int(-2), x))
+				if kt == 2 {
+					m.M = append(m.M, rc.E(rc.Int(-3), y))
+				}
+				m.M = append(m.M, rc.E(rc.Int(-4), d))
+				if alg {
+					m.M = append(m.M, rc.E(rc.Int(3), rc.Int(map[int64]int64{2: -7, 1: -8}[kt])))
+				}
+				f(fmt.Sprintf("text-for-bytes kty=%d shape=%d alg=%v", kt, shape, alg), rc.Encode(m, nil))
 			}
 		}
 	}
